@@ -110,7 +110,7 @@ Fixpoint bwf (e : bexp) : Prop :=
   end.
 
 Theorem translated_formula_end_to_end : forall e fuel kw r st v,
-  k_t kw = Some t -> no_defs defs defs_mem kw -> py_truth (k_prime kw) = false ->
+  k_t kw = Some t -> nodef_on defs defs_mem kw (bnames e) -> py_truth (k_prime kw) = false ->
   encodes var_id vars t env -> encodes_bool -> bwf e ->
   bsem env benv e = Some v ->
   flat fuel (bnode e) None kw = Some (r, st) ->
@@ -129,7 +129,7 @@ Proof.
       split; [reflexivity|]. eexists. split; reflexivity.
   - destruct W as [gb G]. injection S as <-.
     rewrite (var_flatten_is_model defs defs_mem var_id ext_flatten def_flatten fuel n None kw t Ht)
-      in H by apply Hd.
+      in H by (apply Hd; cbn [bnames]; now left).
     rewrite Hp, G in H. injection H as <- <-. split; [reflexivity|].
     eexists. split; [reflexivity|]. cbn [eval_px]. f_equal. now apply EncB.
   - destruct W as [[la La] [ra Ra]].
@@ -156,8 +156,9 @@ Proof.
     apply binary_flatten_is_model in H.
     2-4: intros ->; vm_compute in O; discriminate.
     destruct H as (rx & sx & ry & opx & px & py & p & Hx & Hy & Ho & Px & Py & Ap & ->).
-    destruct (IHa _ _ _ _ _ Ht Hd Hp Enc EncB Wa eq_refl Hx) as (-> & pa & Pa & Eva).
-    destruct (IHb _ _ _ _ _ Ht Hd Hp Enc EncB Wb eq_refl Hy) as (-> & pb & Pb & Evb).
+    destruct (nodef_on_app _ _ _ _ _ Hd) as [Hda Hdb].
+    destruct (IHa _ _ _ _ _ Ht Hda Hp Enc EncB Wa eq_refl Hx) as (-> & pa & Pa & Eva).
+    destruct (IHb _ _ _ _ _ Ht Hdb Hp Enc EncB Wb eq_refl Hy) as (-> & pb & Pb & Evb).
     rewrite Px in Pa. injection Pa as <-. rewrite Py in Pb. injection Pb as <-.
     split; [reflexivity|]. eexists. split; [reflexivity|].
     rewrite (opmap_connective vars op o opx px py p O Ho Ap), Eva, Evb. reflexivity.
